@@ -123,7 +123,8 @@ def dec_seconds(rng, max_secs):
         return rng.choice(["0", "0.0", "0.4", "0.499999999"])
     r = rng.random()
     if r < 0.3:
-        return str(rng.randint(0, max_secs))
+        v = rng.randint(0, max_secs)
+        return rng.choice(["%d", "%d", "%d", "0%d", "00%d", "%d.", "%d.0", "%d.000000000"]) % v          # integer spellings
     if r < 0.4:
         return "%d.%s" % (max_secs, rng.choice(["0", "4", "499999999", "25", "000000001"]))
     s = rng.randint(0, max_secs - 1) if max_secs > 0 else 0
